@@ -46,6 +46,7 @@ structure HState where
   gp : GroupPending := { src := none, gbNull := false, keys := [], remaining := 0, got := [], active := false }
   likeO : List (Bytes × Bool × Option (List (Bytes × Bool))) := []
   upperO : List (Bytes × Bytes) := []
+  cbZeroFrom : Option Nat := none     -- callbacks of instructions from this index on must not run
   deriving Inhabited
 
 def HState.getFrame (s : HState) (fid : Nat) : Option (Option LFrame) :=
@@ -362,18 +363,18 @@ def checkPhys : P (Option String) := do
   return none
 
 /-- Expectation for an `O` line. -/
-def expectOp (s : HState) (src : Option LFrame) (op : String) : P Expect := do
+def expectOp (s : HState) (src : Option LFrame) (op : String) : P (Expect × Option Nat) := do
   match src with
   | none =>
     -- consume nothing: arguments are irrelevant once the source carries an error
-    return .sticky
+    return (.sticky, some 0)
   | some f =>
   let lo := s.likeOracle
   let up := s.upperOracle
   match op with
   | "filter" =>
     let c ← parseClause
-    return .exact (filterS lo f c) false
+    return (.exact (filterS lo f c) false, none)
   | "sort" =>
     let k ← nat
     let os ← many k (do
@@ -381,41 +382,44 @@ def expectOp (s : HState) (src : Option LFrame) (op : String) : P Expect := do
       let rev ← bool01
       let nl ← bool01
       return ({ col := col, reverse := rev, nullLast := nl } : Order))
-    if os.isEmpty then return .exact (.ok f) false
-    if os.all (fun o => f.has o.col) then return .sorted f os else return .exact .err false
+    if os.isEmpty then return (.exact (.ok f) false, none)
+    if os.all (fun o => f.has o.col) then return (.sorted f os, none) else return (.exact .err false, none)
   | "slice" =>
     let a ← int
     let b ← int
-    return .exact (sliceS f a b) false
-  | "select" => return .exact (selectS f (← parseNames)) false
-  | "drop" => return .exact (dropS f (← parseNames)) false
+    return (.exact (sliceS f a b) false, none)
+  | "select" => return (.exact (selectS f (← parseNames)) false, none)
+  | "drop" => return (.exact (dropS f (← parseNames)) false, none)
   | "copy" =>
     let dst ← bytes
     let src ← bytes
-    return .exact (copyS f dst src) false
-  | "apply" => return .exact (applyS up f (fun _ => true) false (← parseInstrs)) true
+    return (.exact (copyS f dst src) false, none)
+  | "apply" =>
+    let is ← parseInstrs
+    return (.exact (applyS up f (fun _ => true) false is) true, some (firstFailing up f (fun _ => true) is))
   | "fapply" =>
     let c ← parseClause
     let is ← parseInstrs
-    return .exactAlt (filteredApplyS lo up f c is) true (filteredApplyS lo up f c is true) "KF-C06-fapply-fill"
-  | "rownums" => return .exact (rowNumsS f (← bytes)) false
+    let zf := if c.wellFormed lo f then firstFailing up f (c.sem lo f) is else 0
+    return (.exactAlt (filteredApplyS lo up f c is) true (filteredApplyS lo up f c is true) "KF-C06-fapply-fill", some zf)
+  | "rownums" => return (.exact (rowNumsS f (← bytes)) false, none)
   | "eval" =>
     let dst ← bytes
     let ctx ← next
     let e ← parseEArg
-    return .exact (evalS ctx f dst e) true
+    return (.exact (evalS ctx f dst e) true, none)
   | "distinct" =>
     let gbNull ← bool01
     let keys ← parseNames
-    if !keys.all f.has then return .exact .err false
-    if f.n == 0 then return .exact (.ok f) false
-    return .distinct f gbNull keys
+    if !keys.all f.has then return (.exact .err false, none)
+    if f.n == 0 then return (.exact (.ok f) false, none)
+    return (.distinct f gbNull keys, none)
   | "groupagg" =>
     let gbNull ← bool01
     let keys ← parseNames
     let na ← nat
     let aggs ← many na parseAgg
-    return .groupAgg (groupAggS f gbNull keys aggs)
+    return (.groupAgg (groupAggS f gbNull keys aggs), none)
   | o => fail s!"unknown op {o}"
 
 structure Msg where
@@ -480,9 +484,9 @@ def histLine (s : HState) (toks : Array String) : HState × List Msg :=
         match s.getFrame src with
         | none => fail s!"unknown source frame {src}"
         | some sf =>
-          let exp ← expectOp s sf op
-          return (fid, op, exp)) toks 1 with
-    | .ok (fid, op, exp) => ({ s with pending := some { fid := fid, op := op, exp := exp } }, [])
+          let (exp, zf) ← expectOp s sf op
+          return (fid, op, exp, zf)) toks 1 with
+    | .ok (fid, op, exp, zf) => ({ s with pending := some { fid := fid, op := op, exp := exp }, cbZeroFrom := zf }, [])
     | .error e => failL (toks[3]?.getD "?") e
   | some "R" =>
     match runP (do
@@ -518,6 +522,19 @@ def histLine (s : HState) (toks : Array String) : HState × List Msg :=
               else if v.known then { cls := "KNOWN-FINDING", op := p.op, kind := v.kind, detail := v.detail }
               else if v.mirror then { cls := "MIRROR-MISMATCH", op := p.op, kind := v.kind, detail := v.detail }
               else { cls := "SPEC-MISMATCH", op := p.op, kind := v.kind, detail := v.detail }])
+  | some "CB" =>
+    match runP (do
+        let _fid ← nat
+        let k ← nat
+        many k int) toks 1 with
+    | .error e => failL "CB" e
+    | .ok counts =>
+      match s.cbZeroFrom with
+      | none => (s, [])
+      | some z =>
+        let late := (counts.drop z).filter (· > 0)
+        if late.isEmpty then ({ s with cbZeroFrom := none }, [{ cls := "OK", op := "callbacks", kind := "", detail := "" }])
+        else ({ s with cbZeroFrom := none }, [{ cls := "SPEC-MISMATCH", op := "callbacks", kind := "callback", detail := s!"user callbacks ran after the frame had failed: instruction {z} is the first to fail (0 = before any), invocation counts {counts}" }])
   | some "P" =>
     match runP (do let _ ← nat; checkPhys) toks 1 with
     | .ok none => (s, [{ cls := "OK", op := "wf", kind := "", detail := "" }])
